@@ -125,7 +125,7 @@ pub const WS: [(&str, &str); 7] = [
     ("lf3", "\n\n\n"),
     ("crlf", "\r\n"),
 ];
-pub const CM: [(&str, &str); 19] = [
+pub const CM: [(&str, &str); 21] = [
     ("block", " /* c */ "),
     ("block-own-line", "\n/* c */\n"),
     ("block-multiline", "\n/* a\nb */\n"),
@@ -147,6 +147,9 @@ pub const CM: [(&str, &str); 19] = [
     ("line-empty", " //\n"),
     ("line-crlf", " // c\r\n"),
     ("block-crlf", "\n/* a\r\nb */\r\n"),
+    // a block comment whose text holds the marks of the other comment kind, the next token on the same line
+    ("block-with-line-marks", " /* see http://a.b//c // d */ "),
+    ("line-with-block-marks", " // a /* b */ c\n"),
 ];
 
 /// role of the gap before token i (for violation keys): what kind of position the layout sits in
